@@ -44,14 +44,17 @@ def closed_form_equivalence(c):
 
 def apalache_inductive(c, full):
     """Inductive-invariant check of the closed-form stream model at the REAL constants (2^32, 2^64, BLOCK 64), unbounded histories.
-    quick: Init => IndInv and the two Seek steps; thorough: also the two Apply steps (about 2 min)."""
+    Seven obligations (Init => IndInv; Seek and Apply steps per variant, Apply split by "block lazily pending or not"), each a few
+    seconds since the model avoids division by 2^64."""
     import subprocess
     import time
-    jobs = [("Init", ["--init=Init", "--inv=Inv", "--length=0"]), ("IetfSeek", ["--init=IndInitIetf", "--next=NextSeek", "--inv=Inv", "--length=1"]),
-            ("C64Seek", ["--init=IndInitC64", "--next=NextSeek", "--inv=Inv", "--length=1"])]
-    if full:
-        jobs += [("IetfApply", ["--init=IndInitIetf", "--next=NextApply", "--inv=Inv", "--length=1"]),
-                 ("C64Apply", ["--init=IndInitC64", "--next=NextApply", "--inv=Inv", "--length=1"])]
+    jobs = [("Init", ["--init=Init", "--inv=Inv", "--length=0"]),
+            ("IetfSeek", ["--init=IndInitIetf", "--next=NextSeek", "--inv=Inv", "--length=1"]),
+            ("C64Seek", ["--init=IndInitC64", "--next=NextSeek", "--inv=Inv", "--length=1"]),
+            ("IetfApplyLazy", ["--init=IndInitIetfLazy", "--next=NextApply", "--inv=Inv", "--length=1"]),
+            ("IetfApplyBuf", ["--init=IndInitIetfBuf", "--next=NextApply", "--inv=Inv", "--length=1"]),
+            ("C64ApplyLazy", ["--init=IndInitC64Lazy", "--next=NextApply", "--inv=Inv", "--length=1"]),
+            ("C64ApplyBuf", ["--init=IndInitC64Buf", "--next=NextApply", "--inv=Inv", "--length=1"])]
     wd = c.workdir()
     procs = []
     t0 = time.time()
